@@ -38,6 +38,8 @@ def _update_sites(F, b):
                 out.append((c, f[0]))
     return out
 
+WITNESSES = ["SnapshotFieldsArePrivate", "RunFieldsArePrivate"]
+
 
 def run(ctx):
     F = ctx.facts
